@@ -14,7 +14,7 @@
    leader-completeness invariants of a repaired protocol.  What is machine-checked is the refutation, split by
    cause; `classes h` = (double vote, stale vote counted, ack from diverged log, old-term commit, ack below voted term). *)
 From Coq Require Import NArith List.
-From Agdb Require Import Raft RaftWitness RaftProofs.
+From Agdb Require Import Raft RaftWitness RaftProofs RaftLog RaftLogProofs.
 Import ListNotations.
 Open Scope N_scope.
 
@@ -46,3 +46,25 @@ Theorem C29_refuted_ack_below_vote :
     election_safety h /\ classes h = (false, false, false, false, true) /\ ~ leader_completeness h.
 Proof. exact C29_refuted_ack_below_vote. Qed.
 Print Assumptions C29_refuted_ack_below_vote.
+
+(* ------------------------------------------------------------------ a THIRD log-replication class (RaftLog.v)
+   `commit_noquorum_b rv size evs` (KnownClass commit-without-quorum): a Leader raised its commit index over an
+   index at which fewer than size/2+1 nodes of its term hold its entry — commit() counts rows of the peer table
+   that are not acknowledgements of the current term (rows are never reset on election, update_node writes them
+   from the peer's own requests, response() accepts acknowledgements of any term).
+   Every revision: a 5-node history with one leader per term in which NONE of the five classes of `classes` occurs
+   ends with a new leader that lacks a leader-committed entry (corpus/C29/commit_noquorum.txt). *)
+Theorem C29_refuted_commit_noquorum : forall rv,
+  exists size evs, let h := c_hist (run rv size evs) in
+    size <> 1 /\ election_safety h /\ classes h = (false, false, false, false, false) /\
+    commit_noquorum_b rv size evs = true /\ ~ leader_completeness h.
+Proof. exact RaftLogProofs.C29_refuted_commit_noquorum. Qed.
+Print Assumptions C29_refuted_commit_noquorum.
+
+(* hence "no acknowledgement from a diverged log and no old-term commit" does NOT imply the property *)
+Theorem C29_two_classes_not_enough : forall rv,
+  ~ (forall size evs, size <> 1 ->
+       ack_diverged_b (c_hist (run rv size evs)) = false -> old_term_commit_b (c_hist (run rv size evs)) = false ->
+       leader_completeness (c_hist (run rv size evs))).
+Proof. exact two_classes_not_enough_C29. Qed.
+Print Assumptions C29_two_classes_not_enough.
